@@ -223,6 +223,8 @@ def run_shard(pid: str, tier: str, seed: int, shard: int, nshards: int, out_path
     gc.collect()
 
     data = ctx.export()
+    data['meta'] = {k: getattr(mod, k) for k in ('PID', 'LEVEL', 'RULE', 'ASSUMPTIONS', 'FLOORS', 'EXHAUSTIVE_OVERALL')
+                    if hasattr(mod, k)}
     data.update(status=status, detail=detail, wall_s=round(time.time() - t0, 3),
                 anchors=rec.report(getattr(mod, 'ANCHORS', [])))
     with open(out_path, 'w') as f:
@@ -319,6 +321,12 @@ def run_check(pid: str, tier: str, seed: int, shards: Optional[int] = None,
 
     merged = merge(results)
     wall = round(time.time() - t0, 3)
+    for r in results:
+        if r.get('meta'):
+            meta.update(r['meta'])     # non-literal constants (computed FLOORS) come from the shard
+            break
+    else:
+        problems.append('no-shard-reported-meta')
 
     # classification
     new, known = [], []
@@ -332,7 +340,9 @@ def run_check(pid: str, tier: str, seed: int, shards: Optional[int] = None,
     elif new:
         os.makedirs(os.path.join(VERIF, 'replays'), exist_ok=True)
         for k, (mech, v, _) in enumerate(new):
-            path = os.path.join(VERIF, 'replays', f'{pid}-{tier}-{seed}-{k}.json')
+            path = os.path.join(os.environ.get('VERIF_REPLAY_DIR') or os.path.join(VERIF, 'replays'),
+                                f'{pid}-{tier}-{seed}-{k}.json')
+            os.makedirs(os.path.dirname(path), exist_ok=True)
             w = dict(v['witnesses'][0])
             w['property'] = pid
             w['count'] = v['count']
@@ -460,7 +470,9 @@ def write_evidence(pid, tier, seed, meta, merged, wall, new, known, problems, fl
         'wall_s': wall,
         'violations': len(new),
     }
-    path = os.path.join(VERIF, 'evidence', f'{pid}.json')
+    evdir = os.environ.get('VERIF_EVIDENCE_DIR') or os.path.join(VERIF, 'evidence')
+    os.makedirs(evdir, exist_ok=True)
+    path = os.path.join(evdir, f'{pid}.json')
     tmp = path + '.tmp'
     with open(tmp, 'w') as f:
         json.dump(ev, f, indent=1, sort_keys=False)
